@@ -78,6 +78,30 @@ def c15(ctx):
             nfail += 1
             if nfail <= 3:
                 ctx.violation("C15.selection-algebra", "selected=%s.. expected=%s.." % (i["selected"][:5], want[:5]), {"case": c, "impl": i, "expected_selected": want})
+    # the linter really RUNS the selected rules: a probe file that triggers many rules and names an unknown code
+    probe = ("// deno-lint-ignore nope-unknown-code\nx;\ndebugger;\nvar a = 1;\nif (a == 1) { }\nconsole.log(1);\nenum E {}\ninterface I {}\n"
+             "export function f(b) { for (;;) {} }\nlet u: any = 1;\nwindow.y = 1;\n")
+    probe_cases = [c for c in cases if True][:: max(1, len(cases) // (150 if ctx.tier == "quick" else 1500))]
+    sel_lists = []
+    for c, i in zip(cases, impl):
+        if c in probe_cases and i.get("selected") is not None:
+            sel_lists.append(i["selected"])
+    uniq_rules = sorted({r for sl in sel_lists for r in sl})
+    single = lib.run_vh("lint", [{"src": probe, "media": "ts", "rules": [r]} for r in uniq_rules])
+    alone = {}
+    for r, res in zip(uniq_rules, single):
+        alone[r] = sorted((d["code"], d["start"], d["end"], d["msg"]) for d in res.get("ok", []) if d["code"] == r)
+    multi = lib.run_vh("lint", [{"src": probe, "media": "ts", "rules": sl} for sl in sel_lists])
+    for sl, res in zip(sel_lists, multi):
+        if "ok" not in res:
+            continue
+        got = sorted((d["code"], d["start"], d["end"], d["msg"]) for d in res["ok"] if d["code"] != "ban-unused-ignore")
+        want = sorted(x for r in sl for x in alone.get(r, []) if r != "ban-unused-ignore")
+        if got != want:
+            missing = sorted({x[0] for x in want if x not in got}); extra = sorted({x[0] for x in got if x not in want})
+            ctx.violation("C15.selected-rule-does-not-run-or-unselected-runs:" + ",".join((missing + extra)[:3]),
+                          "probe file: diagnostics of the selection differ from the union of the selected rules alone (missing %s, extra %s)" % (missing, extra),
+                          {"case": {"src": probe, "media": "ts", "rules": sl}})
     # recommended set
     rec = sorted(r["code"] for r in reg["rules"] if "recommended" in r["tags"])
     if sorted(reg["recommended"]) != rec:
